@@ -2,7 +2,7 @@
 // sources under a repository root.  It accepts a small, loop-free subset of Go
 // (see DESIGN.md section 2.1) and fails loudly on anything else.
 //
-// usage: translate -repo /repo -cfg targets.json -out /verif/coq
+// usage: translate -repo /repo -cfg targets.d -out /verif/coq
 package main
 
 import (
@@ -960,17 +960,26 @@ func (m *modCtx) emitRecords() {
 
 func main() {
 	repo := flag.String("repo", "/repo", "repository root")
-	cfgPath := flag.String("cfg", "targets.json", "config")
+	cfgPath := flag.String("cfg", "targets.d", "directory of *.json configs")
 	out := flag.String("out", "/verif/coq", "coq root")
 	only := flag.String("only", "", "comma separated list of output modules (default all)")
 	flag.Parse()
-	raw, err := os.ReadFile(*cfgPath)
-	if err != nil {
-		fail("%v", err)
-	}
 	var cfg Config
-	if err := json.Unmarshal(raw, &cfg); err != nil {
-		fail("config: %v", err)
+	files, err := filepath.Glob(filepath.Join(*cfgPath, "*.json"))
+	if err != nil || len(files) == 0 {
+		fail("no config files in %s", *cfgPath)
+	}
+	sort.Strings(files)
+	for _, cf := range files {
+		raw, err := os.ReadFile(cf)
+		if err != nil {
+			fail("%v", err)
+		}
+		var one Config
+		if err := json.Unmarshal(raw, &one); err != nil {
+			fail("config %s: %v", cf, err)
+		}
+		cfg.Modules = append(cfg.Modules, one.Modules...)
 	}
 	want := map[string]bool{}
 	for _, o := range strings.Split(*only, ",") {
